@@ -389,14 +389,28 @@ def main(argv):
     os.makedirs(EVID, exist_ok=True)
     results = []
     kani_results = []
-    kani_jobs = [h for h in P.get('kani', []) if tier == 'thorough' or h.get('tier', 'quick') == 'quick']
+    kani_all = P.get('kani', [])
+    kani_jobs = [h for h in kani_all if tier == 'thorough' or h.get('tier', 'quick') == 'quick']
     with cf.ThreadPoolExecutor(max_workers=8) as ex:
         futs = [ex.submit(run_unit, u, tier, seed) for u in P['units']]
-        kfuts = [ex.submit(kanirun.run_harness, h) for h in kani_jobs]
+        kfuts = [ex.submit(kanirun.run_harness, h, True) for h in kani_jobs]
         for f in futs:
             results.append(f.result())
         for f in kfuts:
             kani_results.append(f.result())
+    # Fallback (bounded stand-in): when a Verus unit went stale on the changed code (lost anchor, construct outside
+    # the verifiable subset), the proof no longer speaks.  The property's bounded Kani harnesses over the REAL code are
+    # then run even in the quick tier: a counterexample they find is a violation (replayed on the real code, labelled
+    # bounded); if they pass, the verdict stays UNDECIDED (exit 2).
+    stale = [r for r in results if r['undecided']]
+    if stale:
+        done = set(k['harness'] for k in kani_results)
+        extra = [h for h in kani_all if h.get('bounded') and ('%s::%s' % (h['package'], h['harness'])) not in done
+                 and (not h.get('fallback_for') or any(r['unit'] in h['fallback_for'] for r in stale))]
+        if extra:
+            with cf.ThreadPoolExecutor(max_workers=4) as ex:
+                for f in [ex.submit(kanirun.run_harness, dict(h, timeout=min(h.get('timeout', 900), 900)), True) for h in extra]:
+                    kani_results.append(f.result())
     # static (token-scan) assumptions checks
     scan_notes = []
     for sc in P.get('scans', []):
